@@ -55,7 +55,11 @@ THEOREMS = ['C05_pot_transform_compl_untouched', 'C05_pot_transform_den',
             'C05_explicit_transformation_not_empty',
             'C05_inline_cells_den_conv', 'C05_pipeline_located',
             'C05_precedence_from_tokens', 'C05_precedence_located',
-            'C05_trcl_phase_with_cellrefs_refuted']
+            'C05_trcl_phase_with_cellrefs_refuted',
+            'C05_interface_laws_linked', 'C05_pipeline_located_linked',
+            'C05_fill_phase_located_linked', 'C05_pot_transform_den_linked',
+            'C05_leaf_region_linked', 'C05_returned_cells_distinct',
+            'C05_trcl_phase_den_linked', 'C05_cell_transform_den_linked']
 
 
 def tie_case_summary(case):
